@@ -287,3 +287,41 @@ pub fn stale_content() -> Vec<u8> {
     }
     v
 }
+
+
+// ------------------------------------------------------------------------- input channels
+
+/// Ways a tool with an optional INPUT file argument can be given its input:
+/// 0 regular file; 1 stdin at once; 2 regular file (callers use it for "file in, file out");
+/// 3 a named pipe as INPUT; 4 `/dev/stdin` as INPUT with a pipe on stdin; 5 stdin in small pieces.
+pub const INPUT_MODES: u64 = 6;
+
+pub struct InputPlan {
+    /// the INPUT argument, if the mode uses one
+    pub path_arg: Option<String>,
+    pub stdin: Option<Vec<u8>>,
+    pub feed: crate::cli::Feed,
+}
+
+pub fn plan_input(mode: u8, dir: &std::path::Path, file_name: &str, content: &[u8]) -> InputPlan {
+    let chunk = [1usize, 7, 64, 1000][content.len() % 4];
+    let path = dir.join(hostile_file_name(content.len() / 3 + mode as usize, file_name));
+    match mode {
+        1 => InputPlan { path_arg: None, stdin: Some(content.to_vec()), feed: Default::default() },
+        3 => InputPlan { path_arg: Some(path.display().to_string()), stdin: None, feed: crate::cli::Feed { stdin_chunk: 0, fifos: vec![(path, content.to_vec(), chunk)] } },
+        4 => InputPlan { path_arg: Some("/dev/stdin".into()), stdin: Some(content.to_vec()), feed: crate::cli::Feed { stdin_chunk: if content.len() % 2 == 0 { 0 } else { chunk }, fifos: vec![] } },
+        5 => InputPlan { path_arg: None, stdin: Some(content.to_vec()), feed: crate::cli::Feed { stdin_chunk: chunk, fifos: vec![] } },
+        _ => {
+            let _ = std::fs::write(&path, content);
+            InputPlan { path_arg: Some(path.display().to_string()), stdin: None, feed: Default::default() }
+        }
+    }
+}
+
+/// File names a user may well choose: spaces, quotes, `#`, commas, non-ASCII. (A tool that copies a
+/// path into its output — a header comment, say — must survive them.)
+pub const FILE_NAME_PREFIXES: [&str; 8] = ["", "my file ", "4\"x", "q\"-\"5 ", "it's ", "#1, ", "é λ ", "a\"b\"c\" "];
+
+pub fn hostile_file_name(k: usize, base: &str) -> String {
+    format!("{}{}", FILE_NAME_PREFIXES[k % FILE_NAME_PREFIXES.len()], base)
+}
